@@ -98,27 +98,66 @@ theorem start_build_limit (orig : List Nat) :
 
 /-- Full statement for the first limit: an input of more than 49149 bytes gives the input-too-long error,
 whatever the configuration -/
-theorem tokenize_too_long (v : SplitV) (cfg : Cfg) (orig : List Nat) (h : orig.length > 49149) :
-    tokenize v cfg orig = .err "TooLong" := by
+theorem tokenize_too_long (v : SplitV) (lv : LenV) (cfg : Cfg) (orig : List Nat) (h : orig.length > 49149) :
+    tokenize v lv cfg orig = .err "TooLong" := by
   unfold tokenize
   rw [(start_build_limit orig).2 h]
 
 /-- second limit: when the plugins themselves return their edits, the only error `rewrite_input` can
-report is input-too-long, and it is reported exactly when the running length of a commit exceeds 65535
-(`C08.commit_too_long`) — note: the *running* length, checked after every edit of the batch, not the
-length of the normalised text (finding `commit-transient-length`). -/
-theorem rewrite_input_only_too_long (ps : List (List Nat → Outcome (List (Edit Nat)))) (l : List (P Nat))
-    (hp : ∀ p ∈ ps, ∀ t, ∃ es, p t = .ok es) (k : String) (h : rewriteInput ps l = .err k) : k = "TooLong" :=
-  rewriteInput_err ps l hp k h
+report is input-too-long (both length guards).  In the pinned tree (`lv = running`) it is reported exactly when
+the running length of a commit exceeds 65535 (`C08.commit_too_long`) — the *running* length, checked after
+every edit of the batch, not the length of the normalised text (finding `commit-transient-length`,
+`commit_transient_counterexample`); in the repaired tree (`lv = final`) exactly when the rewritten text of a
+commit exceeds 65535 bytes (`commit_final_too_long_iff`). -/
+theorem rewrite_input_only_too_long (lv : LenV) (ps : List (List Nat → Outcome (List (Edit Nat)))) (l : List (P Nat))
+    (hp : ∀ p ∈ ps, ∀ t, ∃ es, p t = .ok es) (k : String) (h : rewriteInput lv ps l = .err k) : k = "TooLong" :=
+  rewriteInput_err lv ps l hp k h
 
-/-- the running-length check rejects a batch whose result would be within the limit: 65535 bytes,
-insert one byte, delete one byte (a one-edit-at-a-time instance of the finding) -/
+/-- **the pinned guard (variant `running`)**: the running-length check rejects a batch whose result would be
+within the limit: 65535 bytes, insert one byte, delete one byte (a one-edit-at-a-time instance of the finding);
+the repaired guard (variant `final`) accepts the same batch -/
 theorem commit_transient_counterexample :
     lenOk 65535 65535 [(⟨0, 0, [1]⟩ : Edit Nat), ⟨1, 2, []⟩] = false ∧
-    ((65535 : Int) + 1 - 1 ≤ 65535) := by
-  constructor
-  · decide
-  · omega
+    ((65535 : Int) + 1 - 1 ≤ 65535) ∧
+    lenGuard .running 65535 65535 [(⟨0, 0, [1]⟩ : Edit Nat), ⟨1, 2, []⟩] = false ∧
+    lenGuard .final 65535 65535 [(⟨0, 0, [1]⟩ : Edit Nat), ⟨1, 2, []⟩] = true := by
+  refine ⟨by decide, by omega, by decide, by decide⟩
+
+/-- **The repaired guard (variant `final`): `commit` fails iff the FINAL length exceeds the limit.**  For a
+buffer of the shape every reachable state has (`Shape`: one map entry per byte plus the sentinel) and a non-empty
+batch of sorted, non-overlapping, in-range edits (`EditsOk`, what the plugins emit: C07 `*_edits_ok`), the batch is
+rejected with input-too-long exactly when the rewritten text — `resolve_edits` run to its end — would be longer
+than 65535 bytes; otherwise it is committed and the result is that rewritten text.  This is the clause of the
+property ("succeeds … whose normalised form is at most 65535 bytes") that `commit_transient_counterexample`
+refutes for the pinned guard. -/
+theorem commit_final_too_long_iff (N : Nat) (l : List (P Nat)) (hs : Shape N l) (es : List (Edit Nat)) (hne : es ≠ [])
+    (hok : EditsOk (l.length - 1) 0 es) :
+    (commitV .final l es = none ↔ 65535 < (textOf (resolve l es)).length) ∧
+    (∀ l', commitV .final l es = some l' ↔ l' = resolve l es ∧ (textOf (resolve l es)).length ≤ 65535) :=
+  ⟨commitV_final_none_iff N l hs es hne hok, fun l' => commitV_final_some_iff N l hs es hne hok l'⟩
+
+/-- the length the repaired `resolve_edits` computes before copying anything (`finalLen`) IS the length of the
+rewritten text: current length plus, per edit, replacement length minus replaced length -/
+theorem final_length_is_text_length (N : Nat) (l : List (P Nat)) (hs : Shape N l) (es : List (Edit Nat))
+    (hok : EditsOk (l.length - 1) 0 es) :
+    (((textOf (resolve l es)).length : Nat) : Int) = finalLen (((textOf l).length : Nat) : Int) es :=
+  resolve_text_length N l hs es hok
+
+/-- the repair removes no functionality: every batch the pinned `commit` accepts is accepted by the repaired one
+with the same result (no hypothesis on the edits) -/
+theorem commit_final_extends_running (l : List (P Nat)) (es : List (Edit Nat)) (l' : List (P Nat))
+    (h : commitV .running l es = some l') : commitV .final l es = some l' :=
+  commit_imp_commitV_final l es l' h
+
+/-- non-vacuity of `Shape`/`EditsOk`/`es ≠ []`, and the finding's shape at small scale: text `ab`, first byte
+replaced by three bytes, second byte deleted — both guards commit, result `[1,2,3]` with map `[0,1,1,2]` -/
+example : Shape 2 (identFrom 0 [97, 98]) ∧
+    EditsOk ((identFrom 0 [97, 98]).length - 1) 0 [(⟨0, 1, [1, 2, 3]⟩ : Edit Nat), ⟨1, 2, []⟩] ∧
+    (commitV .final (identFrom 0 [97, 98]) [(⟨0, 1, [1, 2, 3]⟩ : Edit Nat), ⟨1, 2, []⟩]).map (fun l => (textOf l, snds l))
+      = some ([1, 2, 3], [0, 1, 1, 2]) ∧
+    commitV .running (identFrom 0 [97, 98]) [(⟨0, 1, [1, 2, 3]⟩ : Edit Nat), ⟨1, 2, []⟩]
+      = commitV .final (identFrom 0 [97, 98]) [(⟨0, 1, [1, 2, 3]⟩ : Edit Nat), ⟨1, 2, []⟩] := by
+  refine ⟨ident_shape [97, 98], by simp [EditsOk, identFrom], by decide, by decide⟩
 
 /-! ## clause "every accessor of every returned morpheme is safe to call" (offsets) -/
 
@@ -280,20 +319,76 @@ theorem candidates_inside_text_built (bowFix : Bool) (tab : List (Nat × Nat)) (
   rw [hc] at this
   exact this
 
+/-! ## clause "never panics (also with debug assertions on)": the regex provider and the empty match -/
+
+/-- **the pinned provider (`skipEmpty = false`)**: the configuration `[a]{0,}` (relaxed boundaries) loads; on the
+text `b` the pattern matches the empty string at offset 0 and `provide_oov` reaches `CreatedWords::single(0)`
+(`debug_assert!(raw > 0)`): a panic in a debug build (directed case `regex-empty-match`; a release build inserts a
+node of length 0).  The repaired provider returns no node for the same call. -/
+theorem regex_empty_match_counterexample :
+    regexProvide ⟨0, 0, 100, 0, [⟨[97], 0, none⟩], 8, false, false⟩ ⟨[98], [1], [1], [true]⟩ 0 0 []
+      = .panic "CreatedWords::single(0)" ∧
+    regexProvide ⟨0, 0, 100, 0, [⟨[97], 0, none⟩], 8, false, true⟩ ⟨[98], [1], [1], [true]⟩ 0 0 [] = .ok [] := by
+  constructor <;> decide
+
+/-- **The repaired provider (`skipEmpty = true`) never yields an empty node and never panics.**  For every
+pattern (every list of alternatives, also ones that can match the empty string), every buffer, offset, created
+mask and node buffer: (1) a node it returns begins at the offset, is non-empty and ends inside the text — in every
+build profile, because the empty match is dropped before `CreatedWords` is consulted; (2) it never reaches
+`CreatedWords::single(0)`; (3) at an offset inside a buffer that has one run length per character it does not
+panic at all (the `cat_continuous_len` reads and the slice are in range). -/
+theorem regex_fix_never_empty_node (cfg : RegexCfg) (hfix : cfg.skipEmpty = true) (buf : Buf) (o created : Nat)
+    (existing : List Oov.Node) :
+    (∀ nodes, regexProvide cfg buf o created existing = .ok nodes →
+      ∀ x ∈ nodes, x.b = o ∧ x.b < x.e ∧ x.e ≤ buf.chars.length) ∧
+    regexProvide cfg buf o created existing ≠ .panic "CreatedWords::single(0)" ∧
+    (buf.cont.length = buf.chars.length → o < buf.chars.length →
+      NoPanic (regexProvide cfg buf o created existing)) := by
+  refine ⟨?_, ?_, fun hc ho => regexProvide_fix_noPanic cfg hfix buf hc o ho created existing⟩
+  · intro nodes h x hx
+    obtain ⟨h1, h2, h3⟩ := regexProvide_cand cfg buf o created existing nodes h x hx
+    exact ⟨h1, by omega, h3⟩
+  · intro h
+    unfold regexProvide at h
+    split at h
+    · exact absurd (Outcome.panic.inj h) (by decide)
+    · cases h
+    · unfold regexCore at h
+      simp only [hfix, ↓reduceIte] at h
+      split at h
+      · exact absurd (Outcome.panic.inj h) (by decide)
+      · split at h
+        · cases h
+        · split at h
+          · cases h
+          · split at h
+            · cases h
+            · cases h
+            · split at h <;> cases h
+
+/-- non-vacuity: the repaired provider with the pattern `[a]{0,}` on `ba`: nothing at `b`, the node `1..2` at `a` -/
+example : regexProvide ⟨0, 0, 100, 0, [⟨[97], 0, none⟩], 8, false, true⟩ ⟨[98, 97], [1, 1], [1, 1], [true, true]⟩ 0 0 [] = .ok [] ∧
+    regexProvide ⟨0, 0, 100, 0, [⟨[97], 0, none⟩], 8, false, true⟩ ⟨[98, 97], [1, 1], [1, 1], [true, true]⟩ 1 0 []
+      = .ok [⟨1, 2, 0, 0, 100, true, 0⟩] := by
+  constructor <;> decide
+
 /-! ## the composition: `do_tokenize` never panics -/
 
 /-- Full statement wanted (`tokenize_total`): *for every text and every configuration that loaded
 successfully the outcome of `tokenize` is `ok` or `err`, never `panic`; with a fallback provider last it is
 `ok` whenever `|orig| ≤ 49149 ∧ |normalised| ≤ 65535`, and `err TooLong` beyond.*  It is FALSE for the code
-(D7 overflow / sentinel, the running-length check, the numeral loop of C14; before the commit
+(D7 overflow / sentinel; for the pinned guards also the running-length check — variant `lv = running`,
+`commit_transient_counterexample` — and the regex provider's empty match — `skipEmpty = false`,
+`regex_empty_match_counterexample`; the numeral loop of C14; before the commit
 `fix: keep split units inside their parent token` also D6, ill-formed splits).
 
 Proved (partial): the stages compose without a panic when
 * `hplug`  the input-text plugins return edits or an error (bundled plugins: C07 `*_edits_ok`, `edits_ok_apply_total`);
 * `hutf`   the rewritten text is valid UTF-8 (C08 `m2o_inv`: replacements are whole strings);
 * `hlat`   the lattice builder does not panic (C13 proves "never Disconnect with a fallback last"; index safety of
-           the providers under well-formed run tables and the exclusion of regexes matching the empty string are
-           the missing component lemma);
+           the providers under well-formed run tables is the missing component lemma; for the repaired regex
+           provider (`skipEmpty`) `regex_fix_never_empty_node` shows it neither yields an empty node nor panics, whatever
+           the pattern, so "no regex matches the empty string" is no longer part of this hypothesis);
 * `hbuf`   the buffer `InputBuffer::build` produces has the shape `BufOk` (one class word / word-start flag per character,
            runs end inside the text); with it "every candidate is non-empty and inside the text" is PROVED
            (`candidates_inside_text`) — the former hypothesis `hnodes` is reduced to
@@ -313,16 +408,16 @@ Proved (partial): the stages compose without a panic when
            when the nodes they are given are (`concat_nodes` takes the end of the last node: C14 `join_*_coarsens`); that the
            nodes of `resolve_best_path` are inside the text is proved here (`resultNode_eb_le`).
 Under the same hypotheses an input of more than 49149 bytes gives `err TooLong` (`tokenize_too_long`, unconditional). -/
-theorem tokenize_total_partial (v : SplitV) (cfg : Cfg) (orig : List Nat)
+theorem tokenize_total_partial (v : SplitV) (lv : LenV) (cfg : Cfg) (orig : List Nat)
     (hplug : ∀ p ∈ cfg.inputPlugins, ∀ t, NoPanic (p t))
-    (hutf : ∀ l0 l, startBuild orig = some l0 → rewriteInput cfg.inputPlugins l0 = .ok l →
+    (hutf : ∀ l0 l, startBuild orig = some l0 → rewriteInput lv cfg.inputPlugins l0 = .ok l →
       Wire.utf8Decode (textOf l) ≠ none)
     (hlat : ∀ chars, NoPanic (buildLattice cfg.providers cfg.lex (cfg.mkBuf chars)))
     (hbuf : ∀ chars, BufOk (cfg.mkBuf chars) ∧ (cfg.mkBuf chars).chars.length = chars.length)
     (hcost : ∀ chars nodes, buildLattice cfg.providers cfg.lex (cfg.mkBuf chars) = .ok nodes →
       ∀ x ∈ nodes, -32768 ≤ x.c ∧ x.c ≤ 32767)
     (hconn : I16Conn cfg.conn)
-    (hbound : ∀ l0 l chars, startBuild orig = some l0 → rewriteInput cfg.inputPlugins l0 = .ok l →
+    (hbound : ∀ l0 l chars, startBuild orig = some l0 → rewriteInput lv cfg.inputPlugins l0 = .ok l →
       Wire.utf8Decode (textOf l) = some chars → chars.length ≤ 32767)
     (hrowsz : ∀ chars nodes, buildLattice cfg.providers cfg.lex (cfg.mkBuf chars) = .ok nodes →
       ∀ e, (nodes.map toVit).countP (fun n => n.e == e) ≤ 65535)
@@ -331,16 +426,16 @@ theorem tokenize_total_partial (v : SplitV) (cfg : Cfg) (orig : List Nat)
       NoPanic (splitPath .cur (b2c text) (c2b text) path'))
     (hkeep : v = .d6fix → ∀ (nb : Nat) path path', (∀ q ∈ path, q.eb ≤ nb) → cfg.rewrite path = .ok path' →
       ∀ p ∈ path', p.1.eb ≤ nb) :
-    NoPanic (tokenize v cfg orig) := by
+    NoPanic (tokenize v lv cfg orig) := by
   intro w h
   unfold tokenize at h
   cases h0 : startBuild orig with
   | none => rw [h0] at h; simp at h
   | some l0 =>
     rw [h0] at h; simp only [] at h
-    cases h1 : rewriteInput cfg.inputPlugins l0 with
+    cases h1 : rewriteInput lv cfg.inputPlugins l0 with
     | err k => rw [h1] at h; simp at h
-    | panic w' => exact rewriteInput_noPanic _ _ hplug w' h1
+    | panic w' => exact rewriteInput_noPanic lv _ _ hplug w' h1
     | ok l =>
       rw [h1] at h; simp only [] at h
       cases h2 : Wire.utf8Decode (textOf l) with
@@ -446,8 +541,8 @@ example : ∀ (nb : Nat) path path', (∀ q ∈ path, q.eb ≤ nb) → exampleCf
   obtain ⟨q, hq, rfl⟩ := List.mem_map.mp hp
   exact hin q hq
 
-example : morphCount (tokenize .d6fix exampleCfg [97]) = some 1 ∧ morphCount (tokenize .d6fix exampleCfg []) = some 0 ∧
-    morphCount (tokenize .cur exampleCfg [97]) = some 1 := by
+example : morphCount (tokenize .d6fix .final exampleCfg [97]) = some 1 ∧ morphCount (tokenize .d6fix .running exampleCfg []) = some 0 ∧
+    morphCount (tokenize .cur .running exampleCfg [97]) = some 1 := by
   refine ⟨?_, ?_, ?_⟩
   · simp [tokenize, startBuild, MAX_LENGTH, identFrom, exampleCfg, rewriteInput, textOf, Wire.utf8Decode]
     decide
